@@ -10,13 +10,13 @@ namespace C15
 open Canvas Canvas.C15
 variable {α : Type}
 
-/-- the renderer calls of the loop in `DrawPath` (the style is carried from path to path) -/
+/-- the renderer calls of the loop in `DrawPath` (every path starts from the same style) -/
 def loopCalls (o : Ops α) (off : α) (dashes : List α) (m : Mat α) : Style α → List (PathRef α) → List (Call α)
   | _, [] => []
   | style, p :: ps =>
     let r := o.checkDash off dashes p.len
     let style' := { style with dashes := r.1, stroke := if r.2 then style.stroke else Paint.none }
-    ⟨.path p style', m⟩ :: loopCalls o off dashes m style' ps
+    ⟨.path p style', m⟩ :: loopCalls o off dashes m style ps
 
 /-- recording a list of calls -/
 def emitAll (c : Ctx α) : List (Call α) → Ctx α
